@@ -23,7 +23,7 @@ ANCHORS = [
     "raggedarray/raggedslice.py::ragged_slice", "mixin.py::NPSIndexable.__getitem__", "raggedarray/__init__.py::RaggedArray._as_padded_matrix",
 ]
 OPS = ["concat0", "concat1", "like", "padded", "nonzero", "where", "subset", "maskidx", "rslice_ra", "rslice_1d", "rslice_2d", "nps"]
-FLOOR_TAGS = ["op:" + o for o in OPS] + ["ends:none", "ends:inside", "ends:negative", "ends:beyond", "where:xy", "where:xs", "where:scalar-other-kind", "mask:allfalse", "mask:alltrue",
+FLOOR_TAGS = ["op:" + o for o in OPS] + ["ends:none", "ends:inside", "ends:negative", "ends:beyond", "where:xy", "where:xs", "where:xx", "operands:same-object", "where:scalar-other-kind", "mask:allfalse", "mask:alltrue",
                                          "operand:norows", "operand:allempty", "side:left", "side:right", "recv:fresh", "recv:lazyrows", "recv:lazycols+2", "starts:none"]
 FLOOR_MONITORS = ["c08:compare", "c08:arguments-unchanged"]
 FP_STRICT = True       # a floating-point event inside the library that the dense computation does not have is a violation (shard.FpMonitor)
@@ -72,6 +72,10 @@ def run(case):
     CTX.tick("c08:compare")
     if op in ("concat0", "concat1"):
         parts = [arr(s) for s in case["parts"]]
+        if case.get("same_object"):
+            parts = [parts[0]] * case["same_object"]          # the same array object several times in the list of operands
+            case = dict(case, parts=[case["parts"][0]] * case["same_object"])
+            tags.append("operands:same-object")
         for s in case["parts"]:
             tags.append("recv:" + s.get("recv", "fresh"))
             if not s["lens"]:
@@ -203,7 +207,10 @@ def run(case):
         form = case["form"]
         tags.append("where:" + form)
         yspec = case.get("y")
-        if form == "xy":
+        if form == "xx":
+            exp = [np.where(mm, x, x) for mm, x in zip(mrows, rows)]      # both branches are the same object
+            a = attempt(lambda: np.where(mask, ra, ra))
+        elif form == "xy":
             y, yrows, _ = arr(yspec)
             exp = [np.where(mm, x, yy) for mm, x, yy in zip(mrows, rows, yrows)]
             a = attempt(lambda: np.where(mask, ra, y))
@@ -280,7 +287,10 @@ def gen_case(rng, tier, op=None, lens=None, dtype=None, recv=None):
     if op == "concat0":
         k = rng.randint(1, 5)
         dts = [dtype] * k if rng.random() < 0.8 else [rng.choice(gen.DT_INT) for _ in range(k)]
-        return {"op": op, "parts": [spec(rng, L() if i == 0 else gen.length_vector(rng, tier)[0], dts[i], rv()) for i in range(k)]}
+        c_ = {"op": op, "parts": [spec(rng, L() if i == 0 else gen.length_vector(rng, tier)[0], dts[i], rv()) for i in range(k)]}
+        if rng.random() < 0.12:
+            c_["same_object"] = rng.randint(2, 4)
+        return c_
     if op == "concat1":
         k = rng.randint(1, 3)
         n = len(L())
@@ -289,7 +299,10 @@ def gen_case(rng, tier, op=None, lens=None, dtype=None, recv=None):
         if k > 1 and n and rng.random() < 0.2:
             w_ = rng.randint(1, 3)
             parts[-1] = dict(spec(rng, [w_] * n, dts[-1]), dense=True)
-        return {"op": op, "parts": parts}
+        c_ = {"op": op, "parts": parts}
+        if rng.random() < 0.12:
+            c_["same_object"] = rng.randint(2, 3)
+        return c_
     if op in ("rslice_1d", "nps"):
         Lv = rng.randint(1, 9)
         k = rng.randint(0, 5)
@@ -316,7 +329,7 @@ def gen_case(rng, tier, op=None, lens=None, dtype=None, recv=None):
         c["mask"] = [rng.random() < p for _ in range(tot)]
         c["mask_recv"] = rv() if op != "rslice_ra" else "fresh"
         if op == "where":
-            c["form"] = rng.choice(["xy", "xs"])
+            c["form"] = rng.choice(["xy", "xs", "xy", "xs", "xx"])
             if c["form"] == "xy":
                 c["y"] = spec(rng, lens_, dtype, rv())
             else:
